@@ -141,12 +141,15 @@ def build(s, op, tl, par):
         o = src.pipe(ops.skip_last_with_time(d, **kw))
     elif op == "timeout":
         other = s.create_cold_observable(ReactiveTest.on_next(5, "fallback"), ReactiveTest.on_completed(10))
-        o = src.pipe(ops.timeout(d, other, **kw))
+        o = src.pipe(ops.timeout(d, None if par.get("no_other") else other, **kw))
     elif op == "throttle_with_mapper":
         o = src.pipe(ops.throttle_with_mapper(lambda v: rx.timer(dv(d, v), scheduler=s)))
     elif op == "timeout_with_mapper":
         other = s.create_cold_observable(ReactiveTest.on_next(5, "fallback"), ReactiveTest.on_completed(10))
-        o = src.pipe(ops.timeout_with_mapper(rx.timer(d, scheduler=s), lambda v: rx.timer(dv(d, v), scheduler=s), other))
+        # every argument may be omitted: no first timeout / no mapper = no due time there; no fallback = an error at the due time
+        a1 = None if par.get("no_first") else rx.timer(d, scheduler=s)
+        a2 = None if par.get("no_mapper") else (lambda v: rx.timer(dv(d, v), scheduler=s))
+        o = src.pipe(ops.timeout_with_mapper(a1, a2, None if par.get("no_other") else other))
     elif op == "delay_with_mapper":
         if par.get("sd") is not None:
             o = src.pipe(ops.delay_with_mapper(rx.timer(par["sd"], scheduler=s), lambda v: rx.timer(dv(d, v), scheduler=s)))
@@ -269,15 +272,20 @@ def reference(op, tl, par):
         if term:
             out.append((term[0], term[1], None))
     elif op in ("timeout", "timeout_with_mapper"):
-        deadline = SUB + d
+        INF = 10 ** 9
+        deadline = INF if par.get("no_first") else SUB + d
         for (t, k, v) in tl:
             if t > deadline:
                 break
             out.append((t, k, v if k == "N" else None))
             if k != "N":
                 return out + [(0, "fallback-subscriptions", 0)]
-            deadline = t + (dv(d, v) if op == "timeout_with_mapper" else d)
+            deadline = (INF if par.get("no_mapper") else t + dv(d, v)) if op == "timeout_with_mapper" else t + d
         sw = deadline
+        if sw >= INF:
+            return out + [(0, "fallback-subscriptions", 0)]
+        if par.get("no_other"):
+            return out + [(sw, "E", None), (0, "fallback-subscriptions", 0)]
         out += [(sw + 5, "N", "fallback"), (sw + 10, "C", None), (0, "fallback-subscriptions", 1)]
     elif op == "delay_with_mapper":
         els = [(t, v) for (t, k, v) in tl if k == "N"]
@@ -316,8 +324,9 @@ OPS = {
     "take_until_with_time": [{"d": 20, "abs": False}, {"d": 20, "abs": True}, {"d": 35, "abs": True}, {"d": 20, "abs": False, "cold": True}, {"d": 20, "abs": True, "cold": True}],
     "skip_until_with_time": [{"d": 20, "abs": False}, {"d": 20, "abs": True}, {"d": 35, "abs": True}, {"d": 20, "abs": False, "cold": True}, {"d": 20, "abs": True, "cold": True}],
     "take_last_with_time": [{"d": 10}, {"d": 20}, {"d": 30}, {"d": 300}], "skip_last_with_time": [{"d": 10}, {"d": 20}, {"d": 30}, {"d": 300}],
-    "timeout": [{"d": 15}, {"d": 25}],
-    "throttle_with_mapper": [{"d": 10}, {"d": 20}, {"d": 15}], "timeout_with_mapper": [{"d": 15}, {"d": 25}],
+    "timeout": [{"d": 15}, {"d": 25}, {"d": 15, "no_other": True}],
+    "throttle_with_mapper": [{"d": 10}, {"d": 20}, {"d": 15}], "timeout_with_mapper": [{"d": 15}, {"d": 25}, {"d": 15, "no_mapper": True}, {"d": 15, "no_first": True}, {"d": 25, "no_other": True},
+                                                                                        {"d": 15, "no_first": True, "no_mapper": True, "no_other": True}],
     "delay_with_mapper": [{"d": 10}, {"d": 25}, {"d": 10, "sd": 15}, {"d": 25, "sd": 20}, {"d": 10, "sd": 0}],
 }
 FILES = {"delay": "_delay.py", "delay_subscription": "_delaysubscription.py", "timestamp": "_timestamp.py", "time_interval": "_timeinterval.py",
